@@ -145,11 +145,10 @@ __CPROVER_requires(!init ==> (IN_RANGE(param, vals[param]) && ENUM_OK(param, val
 __CPROVER_requires(0 <= g_k && g_k < INTPARAM_COUNT && v_iold == vals[g_k] && v_ipold == vals[param])
 __CPROVER_requires(PTR_IN_OK && COUNTERS_ZERO && (lpsense == 1 || lpsense == -1))
 __CPROVER_assigns(GHOST_ASSIGNS, __CPROVER_object_whole(vals))
-#ifndef CLAUSE_REJECT_SIMPLIFIER_PTR
 __CPROVER_ensures(RET == 0 || RET == 1)
-/* rejected => no mutator was called, no value changed, no switchable pointer changed (the simplifier pointers are the
- * separate instance setIntParam_reject_simplifier_ptr) */
-__CPROVER_ensures(RET == 0 ==> (g_mut == 0 && NO_LP_MUTATION && vals[g_k] == v_iold && ALL_PTRS_BUT_SIMPLIFIER_SAME))
+/* rejected => no mutator was called, no value changed, no switchable pointer changed - the simplifier pointers included
+ * (SIMPLIFIER_PAPILO in a build without PaPILO is rejected without side effect) */
+__CPROVER_ensures(RET == 0 ==> (g_mut == 0 && NO_LP_MUTATION && vals[g_k] == v_iold && ALL_PTRS_BUT_SIMPLIFIER_SAME && SIMPLIFIER_PTRS_SAME))
 /* accepted => stored == argument, inside [lower, upper], and one of the enumerators where the parameter is enumerated */
 __CPROVER_ensures(RET == 1 ==> (vals[param] == value && IN_RANGE(param, value) && ENUM_OK(param, value)))
 __CPROVER_ensures(g_k != param ==> vals[g_k] == v_iold)
@@ -205,10 +204,6 @@ __CPROVER_ensures((CH && param == SOLUTION_POLISHING) ==> (g_mut == 1 && ONE(M_s
 __CPROVER_ensures((CH && param == PRINTBASISMETRIC) ==> (g_mut == 1 && ONE(M_solver_setMetricInformation, value)))
 __CPROVER_ensures((CH && param == STATTIMER) ==> (g_mut == 1 && ONE(M_host_setTimings, value)))
 __CPROVER_ensures((CH && param == STORE_BASIS_SIMPLEX_FREQ) ==> (g_mut == 2 && ONE(M_solver_setStoreBasisFreq, value) && ONE(M_bsolver_setStoreBasisFreq, value)))
-#else
-/* the clause split off from "rejected => nothing changed": a rejected call leaves the simplifier pointers alone */
-__CPROVER_ensures(RET == 0 ==> SIMPLIFIER_PTRS_SAME)
-#endif
 ;
 void h_setInt(void)
 {
@@ -242,7 +237,6 @@ __CPROVER_requires(!init ==> IN_RANGE(param, vals[param]))
 __CPROVER_requires(0 <= g_k && g_k < REALPARAM_COUNT && SAMED(v_dold, vals[g_k]) && SAMED(v_dpold, vals[param]))
 __CPROVER_requires(PTR_IN_OK && COUNTERS_ZERO && 0 <= reallp_in && reallp_in <= 1)
 __CPROVER_assigns(GHOST_ASSIGNS, __CPROVER_object_whole(vals))
-#ifndef CLAUSE_ACCEPTED_IN_RANGE
 __CPROVER_ensures(RET == 0 || RET == 1)
 /* rejected => no mutator was called and no value changed */
 __CPROVER_ensures(RET == 0 ==> (g_mut == 0 && NO_LP_MUTATION && SAMED(vals[g_k], v_dold)))
@@ -252,8 +246,10 @@ __CPROVER_ensures(g_k != param ==> SAMED(vals[g_k], v_dold))
 /* every value inside the range is accepted (unless the build lacks PaPILO and the value would change) */
 __CPROVER_ensures((IN_RANGE(param, value) && !BUILD_LOCKED(param)) ==> RET == 1)
 __CPROVER_ensures((IN_RANGE(param, value) && BUILD_LOCKED(param)) ==> RET == (value == v_dpold))
-/* every value outside the range is rejected (the stored value is inside, so the early return cannot apply) */
-__CPROVER_ensures((value < lower[param] || value > upper[param]) ==> RET == 0)
+/* accepted => the value is inside [lower, upper]; stated with IN_RANGE so that NaN must be rejected (DESIGN.md 6.6). The stored
+ * value is inside its range, so the early return on an unchanged value cannot accept anything outside */
+__CPROVER_ensures(RET == 1 ==> IN_RANGE(param, value))
+__CPROVER_ensures(value != value ==> RET == 0)
 /* no real parameter re-targets a sub-object pointer */
 __CPROVER_ensures(ALL_PTRS_BUT_SIMPLIFIER_SAME && SIMPLIFIER_PTRS_SAME)
 __CPROVER_ensures(SHORTCUT ==> (g_mut == 0 && NO_LP_MUTATION))
@@ -285,10 +281,6 @@ __CPROVER_ensures((CH && param == LEASTSQ_ACRCY) ==> (g_ptr0[P_scaler] != 0 ? (g
 __CPROVER_ensures((CH && param == MIN_MARKOWITZ) ==> (g_mut == 1 && ONED(M_slu_setMarkowitz, value)))
 #ifndef SOPLEX_WITH_PAPILO
 __CPROVER_ensures(param == SIMPLIFIER_MODIFYROWFAC ==> g_mut == 0)
-#endif
-#else
-/* the clause of the statement split off for DESIGN.md 6.6: accepted => the value is inside [lower, upper] */
-__CPROVER_ensures(RET == 1 ==> IN_RANGE(param, value))
 #endif
 ;
 void h_setReal(void)
